@@ -110,6 +110,16 @@ func render(content []byte, pos int, msg, earlierFile string, earlier ...int) (l
 	return
 }
 
+// nonASCIIBefore: some byte of the line before the position (or the byte at it) is no ASCII byte.
+func nonASCIIBefore(b []byte, lineStart, pos int) bool {
+	for i := lineStart; i <= pos && i < len(b); i++ {
+		if b[i] >= 0x80 {
+			return true
+		}
+	}
+	return false
+}
+
 func checkRender(t run.TB, c RenderCase) (judged bool) {
 	b := []byte(c.Content)
 	line, text, errText, p := render(b, c.Pos, c.Message, c.EarlierFile, c.Earlier...)
@@ -154,12 +164,16 @@ func checkRender(t run.TB, c RenderCase) (judged bool) {
 	if !strings.Contains(errText, fmt.Sprintf("in line %d on file file", w.Line)) {
 		run.Fail(t, chkRender, c, "Error() does not show line %d: %q", w.Line, errText)
 	}
-	if w.CaretOK {
+	if w.CaretOK && nonASCIIBefore(b, w.LineStart, c.Pos) {
+		// columns of a line with characters of several bytes: the statement does not say whether a
+		// column is a byte or a character (the 200-byte limit speaks of bytes, a caret of what one sees)
+		run.Excluded("unspecified:caret-column-behind-non-ascii-text")
+	} else if w.CaretOK {
 		dashes := len(last) - len("\t--") - 1
 		if dashes != w.Caret {
 			run.Fail(t, chkRender, c, "caret is under column %d of the shown line, the offending byte is at column %d", dashes, w.Caret)
 		}
-	} else if c.Pos >= w.LineStart && c.Pos < w.LineEnd && !strings.HasSuffix(text, "...") {
+	} else if c.Pos >= w.LineStart && c.Pos < w.LineEnd && !strings.HasSuffix(text, "...") && !nonASCIIBefore(b, w.LineStart, c.Pos) {
 		// outside the zone the statement fixes (an all-blank line is shown as it is): whatever part
 		// of the line is shown, the caret must stand under the offending byte of the shown text
 		raw := string(b[w.LineStart:w.LineEnd])
